@@ -90,3 +90,65 @@ func init() {
 			r.Check(n >= 1, "-", "functions lowering a delegation's shares", itoa(n)+" found", "no function lowers Delegation.Shares: the scan is not seeing the code")
 		}})
 }
+
+// C03.clampsym: ReduceShares subtracts with SubtractDecCoinsWithRounding, which silently clamps the validator's side to
+// what it holds when the excess is below one share.  The amount that left the validator is then smaller than the
+// amount the caller computed; a caller that applies the unclamped amount to the asset's share total (Undelegate) or to
+// another validator (Redelegate's destination) breaks "validators' asset shares sum to the asset's total".
+func init() {
+	register(&Rule{ID: "C03.clampsym", Props: []string{"C03"}, Floor: 2,
+		Doc: "an amount that is subtracted with clamping on the validator side is not applied unclamped elsewhere",
+		Run: func(e *Engine, r *RuleRun) {
+			rs := r.Need("types.AllianceValidator.ReduceShares")
+			if rs == nil {
+				return
+			}
+			clamps := false
+			for _, f := range e.Reach(rs) {
+				if FuncKey(f) == "types.SubtractDecCoinsWithRounding" {
+					clamps = true
+				}
+			}
+			if !clamps {
+				r.OK(FuncKey(rs), "validator-side subtraction", "ReduceShares subtracts exactly (no clamping helper in its call tree)", e.Pos(rs.Pos()))
+				return
+			}
+			r.OK(FuncKey(rs), "validator-side subtraction", "ReduceShares clamps through SubtractDecCoinsWithRounding; callers are checked for an unclamped counterpart", e.Pos(rs.Pos()))
+			for _, c := range e.CallersOf("keeper.Keeper.updateValidatorShares") {
+				fn := c.Fn
+				fa := e.FA(fn)
+				call := c.Instr.(ssa.CallInstruction)
+				if argT(fa, call, 4).Name != "false" {
+					continue
+				}
+				fk := FuncKey(fn)
+				_, vs := decCoinOf(argT(fa, call, 3)) // validator shares removed (clamped in the callee)
+				if vs == nil {
+					r.Undecided(fk, "clamped removal has no unclamped counterpart", "cannot read the validator-share amount passed to updateValidatorShares")
+					continue
+				}
+				var witness ssa.Instruction
+				what := ""
+				// (a) the same amount subtracted exactly from the asset's share total
+				for _, st := range StoresToField(fn, "types.AllianceAsset", "TotalValidatorShares") {
+					t := fa.Term(st.Val)
+					if t.IsCall("math.LegacyDec.Sub") && t.Args[1].Eq(vs) {
+						witness, what = st, "asset.TotalValidatorShares is lowered by the full amount"
+					}
+				}
+				// (b) the same amount added to another validator
+				for _, c2 := range CallsTo(fn, "keeper.Keeper.updateValidatorShares") {
+					if argT(fa, c2, 4).Name == "true" {
+						if _, vs2 := decCoinOf(argT(fa, c2, 3)); vs2 != nil && vs2.Eq(vs) {
+							witness, what = c2, "the destination validator receives the full amount"
+						}
+					}
+				}
+				if witness != nil {
+					r.Bad(fk, "clamped removal has no unclamped counterpart", "the validator shares removed here are clamped by ReduceShares to what the validator holds (excess below one share is dropped silently) while "+what+": after a rounded-up full exit the validators' shares of the asset no longer sum to the asset's total (hunt: total 4.9937 against a validator sum of 5.0; a later fraction-1 slash leaves the asset total negative)", nil, r.P(witness))
+				} else {
+					r.OK(fk, "clamped removal has no unclamped counterpart", "no exact counterpart of the clamped amount in this function", r.P(call))
+				}
+			}
+		}})
+}
